@@ -44,6 +44,26 @@ func idxIntCeil(k any) (int, bool, error) {
 	return idxInt(k)
 }
 
+// sliceIdx: jq (jv_aux.c, parse_slice) adds the length to a negative boundary first, as a double, and rounds
+// afterwards: the start down, the end up. So -0.5 as an end is the length, -1.5 as a start is length-2.
+func sliceIdx(k any, n int, end bool) (int, bool, error) {
+	f, ok := norm(k).(float64)
+	if !ok || f >= 0 || f == math.Trunc(f) {
+		if end {
+			return idxIntCeil(k)
+		}
+		return idxInt(k)
+	}
+	if math.Abs(f) > 1<<40 {
+		return 0, false, unsup("huge index")
+	}
+	f = math.Max(f+float64(n), 0)
+	if end {
+		return int(math.Ceil(f)), true, nil
+	}
+	return int(math.Floor(f)), true, nil
+}
+
 func clamp(i, lo, hi int) int {
 	if i < 0 {
 		i += hi
@@ -65,7 +85,7 @@ func sliceBounds(spec map[string]any, n int) (int, int, error) {
 	}
 	start, end := 0, n
 	if s != nil {
-		i, ok, err := idxInt(s)
+		i, ok, err := sliceIdx(s, n, false)
 		if err != nil {
 			return 0, 0, err
 		}
@@ -75,7 +95,7 @@ func sliceBounds(spec map[string]any, n int) (int, int, error) {
 		start = clamp(i, 0, n)
 	}
 	if e != nil {
-		i, ok, err := idxIntCeil(e)
+		i, ok, err := sliceIdx(e, n, true)
 		if err != nil {
 			return 0, 0, err
 		}
